@@ -143,7 +143,7 @@ class C18(object):
             'violation; distinct = hash of case; non-trivial = >= 1 code actually changed / >= 2 economies')
     assumptions = ['governments take no goods name: for a renamed goods market the spec wires DEM_GOOD = DEM_<new> on the '
                    'government, as the bundled REG model does', 'MON and DEP market codes keep their defaults']
-    required_counters = ('rename.compared', 'rename.compared.market_code_of_prefix_characters', 'embed.compared', 'embed_book.compared', 'builds.compared_exactly')
+    required_counters = ('rename.compared', 'rename.compared.market_code_of_prefix_characters', 'embed.compared', 'embed.compared.capitalists_next_to_a_firm_that_retains_profits', 'embed_book.compared', 'builds.compared_exactly')
 
     def n_cases(self, tier):
         return 24 if tier == 'quick' else 600
@@ -167,7 +167,20 @@ class C18(object):
                     spec['gifts'].append({'src': [central, 'GOVLIKE'], 'dst': [region, 'HH'], 'amount': rng.choice(['1.5', '2.0']),
                                           'inc_src': rng.random() < 0.5, 'inc_dst': rng.random() < 0.5,
                                           'id': len(spec['gifts'])})
-            return {'kind': 'embed', 'spec': spec, 'unused_ext': rng.random() < 0.5,
+            if m == 3:
+                # one economy has capitalists; another has a profitable firm and no capitalists of its own
+                regs = [[c for c in z['countries'] if c['role'] != 'central'][0] for z in spec['zones']]
+                for c in regs:
+                    c['firm'] = {'form': 'fixed', 'margin': 0.125}
+                    for key in ('second_market',):
+                        c[key] = None
+                regs[0]['cap'] = regs[0].get('cap') or {'ai': 0.6, 'af': 0.2}
+                for c in regs[1:]:
+                    c['cap'] = None
+                spec['imports'] = [i for i in spec['imports'] if i['supplier'] not in [c['key'] for c in regs]]
+                for z in spec['zones']:
+                    z['internal_imports'] = [i for i in z.get('internal_imports', []) if i['supplier'] not in [c['key'] for c in regs]]
+            return {'kind': 'embed', 'spec': spec, 'unused_ext': rng.random() < 0.5, 'cap_next_to_retained_profits': m == 3,
                     'region_default_currency': rng.random() < 0.6}
         names = ['SIM', 'SIMEX1', 'PC', 'PC']
         k = rng.choice([2, 2, 3])
@@ -250,6 +263,8 @@ class C18(object):
             compare_exact(rec, a, a_view, joint, view, {'economy': z['cur'], 'unused_ext': case['unused_ext']},
                           name_map=f)
             rec.count('embed.compared')
+            if case.get('cap_next_to_retained_profits'):
+                rec.count('embed.compared.capitalists_next_to_a_firm_that_retains_profits')
         return {'verdict': 'violated' if rec.violations else 'held', 'nontrivial': len(alone) >= 2,
                 'evals': 1 + len(alone), 'shape': shape, 'counters': rec.counters, 'violations': rec.violations[:4],
                 'obs': {'economies': [z['cur'] for z in spec['zones']], 'joint_vars': len(joint_E.names)}}
